@@ -187,6 +187,20 @@ def voice_call_total(r, cc, total):
     return out
 
 
+def ref_crc32(data):
+    """B.3.9 packet CRC-32 computed by hand (independent of the library's CRC engine): octet pairs swapped, polynomial 0x04C11DB7,
+    most significant bit first, zero initial value, no final inversion; returns the register value"""
+    d = bytearray(data)
+    for i in range(0, len(d) - 1, 2):
+        d[i], d[i + 1] = d[i + 1], d[i]
+    reg = 0
+    for byte in d:
+        reg ^= byte << 24
+        for _ in range(8):
+            reg = ((reg << 1) ^ 0x04C11DB7) & 0xFFFFFFFF if reg & 0x80000000 else (reg << 1) & 0xFFFFFFFF
+    return reg
+
+
 def generated_data_tx(r, rate, conf, n, preambles, cc, sap, payload_kind="random", dst=77, src=5678, fmt="data"):
     """data transmission built by the real TransmissionGenerator; returns (bursts, meta)"""
     from math import ceil
@@ -198,6 +212,12 @@ def generated_data_tx(r, rate, conf, n, preambles, cc, sap, payload_kind="random
         payload = bytes(n)
     elif payload_kind == "ff":
         payload = b"\xff" * n
+    elif payload_kind == "runs":
+        # runs of equal octets (zero / ff / one value) of seeded lengths, at the start, inside and at the end of the payload
+        payload = b""
+        while len(payload) < n:
+            payload += bytes([r.choice([0, 0, 0xFF, r.getrandbits(8)])]) * r.choice([1, 1, 2, 3, 4, 7])
+        payload = payload[:n]
     else:
         payload = bytes(i & 255 for i in range(n))
     nb = max(1, ceil(1 + (n - olb) / opb))
